@@ -2,18 +2,22 @@ import ZapVerif.Model.Bytes
 /-! M12/zapio: model of `zapio.Writer` (zapio/writer.go): Write / writeLine / flush / Sync / Close. -/
 namespace ZapVerif.Zio
 
-/-- `Write` with the level enabled, byte-wise: the loop `for len(bs) > 0 { bs = writeLine(bs) }`;
-    `cur` = bytes of this chunk scanned since the last newline, `buff` = `Writer.buff`. -/
-def feed (buff cur : Bytes) : Bytes → List Bytes × Bytes
-  | [] => ([], buff ++ cur)                                  -- no newline left: buffer the rest
-  | b :: r =>
-    if b = 10 then
-      let msg := if buff.isEmpty then cur else buff ++ cur   -- fast path / buffered path
-      let (ms, b') := feed [] [] r
-      (msg :: ms, b')
-    else feed buff (cur ++ [b]) r
+/-- `Write` with the level enabled: the loop `for len(bs) > 0 { bs = writeLine(bs) }`.  `writeLine` looks for the
+    first newline (`bytes.IndexByte`): none ⇒ buffer everything; found ⇒ the message is the line itself when the
+    buffer is empty (fast path) and `buff ++ line` otherwise, the buffer is reset, and the loop continues after
+    the newline.  `fuel` bounds the number of lines (`bs.length + 1` always suffices). -/
+def feed : Nat → Bytes → Bytes → List Bytes × Bytes
+  | 0, buff, bs => ([], buff ++ bs)
+  | fuel + 1, buff, bs =>
+    let l := bs.takeWhile (fun b => b != 10)                   -- up to the first newline
+    match bs.dropWhile (fun b => b != 10) with
+    | [] => ([], buff ++ l)                                   -- no newline left: buffer the rest
+    | _ :: rest =>
+      let msg := if buff.isEmpty then l else buff ++ l          -- fast path / buffered path
+      let p := feed fuel [] rest
+      (msg :: p.1, p.2)
 
-def write (buff bs : Bytes) : List Bytes × Bytes := feed buff [] bs
+def write (buff bs : Bytes) : List Bytes × Bytes := feed (bs.length + 1) buff bs
 
 /-- Sync / Close: `flush(allowEmpty = false)` -/
 def sync (buff : Bytes) : List Bytes × Bytes := (if buff.isEmpty then [] else [buff], [])
